@@ -1209,12 +1209,34 @@ func sortAtoms(s string) []string {
 	return out
 }
 
+// BuildScriptQ: like BuildScript, plus (check-sat) and a (get-value ...) of the query terms.
+func (r *Registry) BuildScriptQ(asserts []*Term, queries []*Term) *Script {
+	sc := r.buildScript(asserts, "", queries)
+	var sb strings.Builder
+	sb.WriteString(sc.Text)
+	sb.WriteString("(check-sat)\n(get-value (")
+	for _, q := range queries {
+		sb.WriteString(" ")
+		sb.WriteString(q.String())
+	}
+	sb.WriteString("))\n")
+	sc.Text = sb.String()
+	return sc
+}
+
 func (r *Registry) BuildScript(asserts []*Term, logicOpts string) *Script {
+	return r.buildScript(asserts, logicOpts, nil)
+}
+
+func (r *Registry) buildScript(asserts []*Term, logicOpts string, extra []*Term) *Script {
 	consts := map[string]string{}
 	funs := map[string]bool{}
 	sorts := map[string]bool{}
 	quant := false
 	for _, a := range asserts {
+		r.collect(a, map[string]bool{}, consts, funs, sorts, &quant)
+	}
+	for _, a := range extra {
 		r.collect(a, map[string]bool{}, consts, funs, sorts, &quant)
 	}
 	// axioms triggered by used symbols (to a fixed point)
